@@ -197,7 +197,7 @@ StepMem(M, c, f, ins, info) ==
                       ELSE SetTop(c, [f EXCEPT !.stack = DropLast(f.stack, 3) \o <<V("i32", OfNat(1, KOf("i32")))>>,
                                                !.pc = f.pc + 1])
 
-StepCtl(M, c, f, ins) ==
+StepCtl(Mods, M, c, f, ins) ==
     LET op == ins[1]
         next == [f EXCEPT !.pc = f.pc + 1]
     IN  CASE op = "nop" -> SetTop(c, next)
@@ -247,8 +247,11 @@ StepCtl(M, c, f, ins) ==
               IN  IF i >= tab.size THEN Stop(c, "undefined")
                   ELSE LET ref == tab.elems[i + 1]
                        IN  IF ref.inst = 0 THEN Stop(c, "undefined")
-                           ELSE IF FuncType(M, ref.f) # M.types[ins[2] + 1] THEN Stop(c, "undefined")
-                           ELSE DoCall(M, c2, ref.inst, ref.f)
+                           \* (the entry's function belongs to the module of the instance that put it there; its type is compared
+                           \* structurally with the type the CALLER's module names)
+                           ELSE LET MC == Mods[c.store.insts[ref.inst].mod] IN
+                                IF FuncType(MC, ref.f) # M.types[ins[2] + 1] THEN Stop(c, "undefined")
+                                ELSE DoCall(MC, c2, ref.inst, ref.f)
           [] op = "drop" -> SetTop(c, [next EXCEPT !.stack = DropLast(f.stack, 1)])
           [] op = "select" ->
               LET cond == ~IsZero(Peek(f, 0).b)
@@ -303,14 +306,16 @@ StepCtl(M, c, f, ins) ==
               [SetTop(c, next) EXCEPT !.store.insts[f.inst].dropped = @ \cup {ins[2]}]
           [] op = "atomic.fence" -> SetTop(c, next)
 
-Step(M, c) ==
+\* Mods: the modules of the scenario; the instruction belongs to the module of the top frame's instance
+Step(Mods, c) ==
     LET f    == Top(c)
+        M    == Mods[c.store.insts[f.inst].mod]
         ins  == f.code[f.pc]
         info == OpInfo(ins[1])
         next == [f EXCEPT !.pc = f.pc + 1]
     IN  IF c.fuel = 0 THEN Stop(c, "fuel")
         ELSE LET c1 == [c EXCEPT !.fuel = c.fuel - 1] IN
-        CASE info.c = "ctl" -> StepCtl(M, c1, f, ins)
+        CASE info.c = "ctl" -> StepCtl(Mods, M, c1, f, ins)
           [] info.c = "const" -> SetTop(c1, [next EXCEPT !.stack = f.stack \o <<V(info.t, ins[2])>>])
           [] info.c = "iun" ->
               SetTop(c1, [next EXCEPT !.stack = DropLast(f.stack, 1) \o <<V(info.t, IUn(info.o, Peek(f, 0).b))>>])
@@ -398,7 +403,13 @@ Instantiate(M, store, binds) ==
         st4 == IF M.table.present THEN [st3 EXCEPT !.tables = @ \o <<NewTable(M.table.min)>>] ELSE st3
         st5 == IF taddr = 0 THEN st4
                ELSE [st4 EXCEPT !.tables[taddr] = ApplyElems(M, st4, gs.g, st4.tables[taddr], inst, 1)]
-    IN  [st5 EXCEPT !.insts = @ \o <<[mem |-> maddr, table |-> taddr, globals |-> gs.g, dropped |-> {}]>>]
+    IN  [st5 EXCEPT !.insts = @ \o <<[mem |-> maddr, table |-> taddr, globals |-> gs.g, dropped |-> {}, mod |-> 1]>>]
+
+\* several modules in one store (a program translated with -m and linked together): an instance remembers which module it is an
+\* instance of (its number in the scenario's list of modules); tables, memories and globals bound at instantiation may belong to
+\* instances of other modules, and a table entry leads to the function of whichever instance put it there
+SetLastMod(store, k) == [store EXCEPT !.insts[Len(store.insts)].mod = k]
+ModOf(Mods, store, inst) == Mods[store.insts[inst].mod]
 
 \* <module>NewChild(parent): a further instance of the same module made from a live one (what
 \* wasi thread-spawn uses).  It is an instantiation with the imports bound to what the resolver
